@@ -14,6 +14,7 @@ import itertools
 import warnings
 from typing import Any, Dict  # noqa: used by string annotations of the generated hosts
 
+from mc import snap
 from mc.common import Counter, pmap, violation
 
 PROP = "C18"
@@ -146,7 +147,7 @@ class RefAlias:
         self.override = self.NONE
 
     def key(self):
-        return (self.target, self.override)
+        return (repr(self.target), repr(self.override))
 
     def spec(self):
         return self.cfg["host"] == "spec"
@@ -234,6 +235,7 @@ def ops_for(cfg):
         ops.append(["read_alias_mutate"])
     if cfg["host"] == "plain" or cfg["fallback"]:
         ops.append(["write_alias", None])  # a local override / forwarded value of exactly None is a value
+        ops.append(["write_alias", [7]])   # a MUTABLE override (copies of the host must not share it)
     if cfg["host"] == "spec":
         ops += [["write_alias", "bad"], ["cow_alias", 5], ["cow_alias", 1], ["deepcopy"], ["reset"]]
         if cfg["path"] == "plain":
@@ -274,7 +276,7 @@ def impl_apply(obj, op, cfg):
             elif n == "read_alias_mutate":
                 v = obj.a
                 r = ("value", copy.deepcopy(v))
-                if isinstance(v, list):
+                if isinstance(v, list) and v == FALLBACK:  # (only what was handed out as a FALLBACK is edited - never a stored override)
                     if v and isinstance(v[0], list):
                         v[0].append(98)
                     v.append(99)
@@ -309,8 +311,10 @@ def impl_apply(obj, op, cfg):
                     obj = new
                     r = ("value", None)
             elif n == "deepcopy":
-                obj = copy.deepcopy(obj)
-                r = ("value", None)
+                new = copy.deepcopy(obj)
+                shared = snap.shared_mutable(obj, new)
+                obj = new
+                r = ("value", "<the copy shares mutable state with the original>" if shared else None)
             elif n == "reset":
                 obj = obj.reset()
                 r = ("value", None)
